@@ -14,7 +14,7 @@ CHECK = {
             "model. Non-trivial: a host update claiming an address the sender is not authenticated for, or a query "
             "reply / punch notification to a client from a sender that is not a configured lighthouse; distinct by history.",
     "assumptions": [
-        "underlay addresses in the messages lie outside the node's overlay networks and no remote allow list is configured (C36 covers filtering)",
+        "generated underlay addresses lie outside the node's overlay networks and no remote allow list is configured (C36 covers filtering); addresses inside the own networks that arise from bit-flipped messages are dropped by the reference as well",
         "EncWriter.GetHostInfo returns nil (no established tunnel to the queried host), so punch notifications use the node's default certificate version",
         "wire bytes are decoded for the reference with the generated protobuf code into a fresh message (protobuf decoding is not the subject)",
         "several punches with the same deadline are compared as a multiset",
